@@ -68,6 +68,7 @@ var knobs = map[string]bool{
 	"WriteChannelCommandDepth":            true,
 	"defaultReplicationStreamChannelSize": true,
 	"defaultSenderChannelSize":            true,
+	"recordsPerRead":                      true,
 }
 
 type fileCtx struct {
@@ -341,8 +342,17 @@ func (fc *fileCtx) rewrite(stats map[string]int) bool {
 			if knobs[n.Name] && c.Name() != "Sel" {
 				if obj, ok := info.Uses[n].(*types.Const); ok && obj.Parent() == fc.pkg.Types.Scope() &&
 					obj.Val().Kind() == constant.Int {
-					c.Replace(call("simrt", "KnobVal",
-						&ast.BasicLit{Kind: token.STRING, Value: strconv.Quote(n.Name)}, ast.NewIdent(n.Name)))
+					var repl ast.Expr = call("simrt", "KnobVal",
+						&ast.BasicLit{Kind: token.STRING, Value: strconv.Quote(n.Name)}, ast.NewIdent(n.Name))
+					// an untyped constant takes the type of its context (e.g. int32 in
+					// `recordsPerRead * iop.RecordLen`); KnobVal returns int, so convert
+					if tv, ok := info.Types[n]; ok {
+						if bt, ok := tv.Type.(*types.Basic); ok && bt.Info()&types.IsInteger != 0 &&
+							bt.Info()&types.IsUntyped == 0 && bt.Kind() != types.Int {
+							repl = &ast.CallExpr{Fun: ast.NewIdent(bt.Name()), Args: []ast.Expr{repl}}
+						}
+					}
+					c.Replace(repl)
 					fc.needRT = true
 					stats["T5-knob"]++
 					changed = true
